@@ -68,7 +68,7 @@ def run(ctx):
         ctx.layer("reduced-alphabet-k3+keyword-case", filters=n3, exhaustive=True)
     nr = SC.reverse_pass(ctx, BK)
     ctx.layer("reverse-order-pass", k=1, filters=nr, exhaustive=True, note="same filters, opposite translation history per worker")
-    ns = SC.generic_strings(ctx, BK, 2 if not ctx.quick else 1)
+    ns = SC.generic_strings(ctx, BK, 2)
     ctx.layer("string-literals", strings=ns, positions=len(SC.string_position_terms(T.Str("x"), BK.cap)), exhaustive=True)
     ctx.extra["entry_styles_disagree"] = int(ctx.counts["entry_styles_disagree"])
 
